@@ -32,7 +32,9 @@ func c09ReencSub() *engine.Sub {
 		Name:   "re-encodings-of-well-signed-tokens",
 		Repeat: true,
 		Rule:   "every single data-preserving re-encoding site (C08's catalogue: non-minimal head widths, indefinite lengths, chunked strings, map key permutations, floats in half / single precision, undefined for null, spurious tags, extra outer element, trailing bytes) - and every pair of a float-narrowing with another site - of 5 sealed base tokens, offered to every entry point that takes sealed bytes and, inside a CBOR and a CAR container, to the container readers: no panic; non-trivial = all",
-		Bound:  func(string) string { return "5 base tokens (Ed25519) x all single sites + pairs with float sites x 9 entry points" },
+		Bound: func(string) string {
+			return "5 base tokens (Ed25519) x all single sites + pairs with float sites x 9 entry points"
+		},
 		Gen: func(tier string, emit func(any) bool) {
 			for _, base := range []string{"dlg", "inv", "dlg2", "inv-bounds", "dlg-bounds"} {
 				orig := c08Base(base, "ed25519")
